@@ -286,18 +286,19 @@ Lemma newfb_regions st w h bpp seed :
          (sClients (newfb_state st w h bpp seed)).
 Proof.
   unfold newfb_state. destruct (rescale_clients _ _ _ _ _ _) as [chain rcl].
-  cbn [sClients]. apply Forall_map. apply Forall_forall. intros c _.
+  cbn [sClients]. apply Forall_map. apply Forall_forall. intros c0 _.
+  generalize (reselect (sBpp st) bpp c0). intros c.
   unfold newfb_client. destruct c; csimpl. destruct cUseNewFB; csimpl.
   - repeat split; auto; discriminate.
   - unfold client_resize. csimpl. destruct ((cPW =? w) && (cPH =? h)) eqn:E; csimpl; repeat split; auto; try discriminate; lia.
 Qed.
 
 Lemma newfb_inv st w h bpp seed :
-  Inv st -> 0 < w -> 0 < h -> bpp = 1 \/ bpp = 2 \/ bpp = 4 -> Inv (newfb_state st w h bpp seed).
+  Inv st -> 0 < w -> 0 < h -> fmt_ok bpp = true -> Inv (newfb_state st w h bpp seed).
 Proof.
   intros HI Hw Hh Hb.
   apply (step_inv st (OpNewFB w h bpp seed) _ [] HI Logic.I).
-  unfold step. cbn [op_target step0]. replace ((0 <? w) && (0 <? h) && ((bpp =? 1) || (bpp =? 2) || (bpp =? 4))) with true by lia.
+  unfold step. cbn [op_target step0]. rewrite Hb. replace ((0 <? w) && (0 <? h)) with true by lia.
   reflexivity.
 Qed.
 
@@ -305,7 +306,7 @@ Qed.
    [fbf st] = the content of the buffer with the current identity *)
 Lemma newfb_content st w h bpp seed x y :
   0 <= x < w -> 0 <= y < h ->
-  fbf (newfb_state st w h bpp seed) x y = draw_value bpp seed x y /\
+  fbf (newfb_state st w h bpp seed) x y = draw_value (fmt_bpp bpp) seed x y /\
   sFBid (newfb_state st w h bpp seed) = sFBid st + 1.
 Proof.
   intros Hx Hy. unfold fbf, newfb_state. destruct (rescale_clients _ _ _ _ _ _) as [chain rcl].
@@ -319,15 +320,30 @@ Lemma newfb_state_fields st w h bpp seed :
 Proof. unfold newfb_state. destruct (rescale_clients _ _ _ _ _ _) as [chain rcl]. repeat split. Qed.
 
 (* what a client must hold follows the new depth *)
-Lemma newfb_translate st w h bpp seed c x y :
-  0 <= x < w -> 0 <= y < h ->
-  fb_for (newfb_state st w h bpp seed) (newfb_client w h c) x y =
-  translate bpp (cBpp c) (draw_value bpp seed x y).
+Lemma newfb_client_bpp w h c : cBpp (newfb_client w h c) = cBpp c.
 Proof.
-  intros Hx Hy. unfold fb_for. rewrite (proj1 (newfb_content st w h bpp seed x y Hx Hy)).
-  destruct (newfb_state_fields st w h bpp seed) as (_ & _ & -> & _).
-  f_equal. unfold newfb_client, client_resize. destruct c; cbn.
+  unfold newfb_client, client_resize. destruct c; cbn.
   destruct cUseNewFB; cbn; [reflexivity|]. destruct ((cPW =? w) && (cPH =? h)); reflexivity.
+Qed.
+
+(* rfbNewFramebuffer re-selects the translation of a client whose translation was up to date: afterwards it
+   is the one for the NEW server format (whatever changed in the format: depth, maxima, shifts) *)
+Lemma reselect_from oldf newf c :
+  tFrom (cBpp c) = oldf -> cBpp (reselect oldf newf c) = mkX newf (tTo (cBpp c)).
+Proof.
+  intros Hf. unfold reselect. destruct (newf =? oldf) eqn:E.
+  - apply Z.eqb_eq in E. subst. destruct c as [? ? ? ? ? ? ? ? ? ? ? ? ? ? ? ? ? [f t] ? ? ? ?]. cbn in *. subst. reflexivity.
+  - destruct c; reflexivity.
+Qed.
+
+(* what reaches a client after the switch is the new content translated FROM THE NEW FORMAT to the client's *)
+Lemma newfb_translate st w h bpp seed c x y :
+  0 <= x < w -> 0 <= y < h -> tFrom (cBpp c) = sBpp st ->
+  fb_for (newfb_state st w h bpp seed) (newfb_client w h (reselect (sBpp st) bpp c)) x y =
+  translate bpp (tTo (cBpp c)) (draw_value (fmt_bpp bpp) seed x y).
+Proof.
+  intros Hx Hy Hf. unfold fb_for. rewrite (proj1 (newfb_content st w h bpp seed x y Hx Hy)).
+  rewrite newfb_client_bpp, (reselect_from _ _ _ Hf). reflexivity.
 Qed.
 
 (* the first update after rfbNewFramebuffer for a client with NewFBSize / ExtendedDesktopSize:
@@ -387,10 +403,48 @@ Qed.
 
 Lemma setdesktop_other hookres c :
   let c1 := setdesktop_one false hookres c in
-  (hookres = 0 -> cReqChange c1 = c16_reason_other) /\ (hookres <> 0 -> c1 = c) /\
+  (hookres = 0 -> sds_keeps_own_answer && (cReqChange c =? c16_reason_client) = false ->
+   cReqChange c1 = c16_reason_other) /\
+  (hookres <> 0 -> c1 = c) /\
   cNewFBPending c1 = cNewFBPending c /\ cLastErr c1 = cLastErr c.
 Proof.
-  unfold setdesktop_one. destruct (hookres =? 0) eqn:E; destruct c; cbn; repeat split; try lia; auto.
+  unfold setdesktop_one. destruct (hookres =? 0) eqn:E;
+    [destruct (sds_keeps_own_answer && (cReqChange c =? c16_reason_client)) eqn:E2|];
+    destruct c; cbn; repeat split; try lia; auto; try discriminate.
+Qed.
+
+(* with fix_C16_4 (flag on): a client whose own answer is pending is left alone by the others' requests;
+   at the level of one step: client n's record is untouched by client m's SetDesktopSize *)
+Lemma setdesktop_own_kept hookres c :
+  sds_keeps_own_answer = true -> cReqChange c = c16_reason_client -> setdesktop_one false hookres c = c.
+Proof.
+  intros Hf Hc. unfold setdesktop_one. rewrite Hf, Hc. cbn [andb]. rewrite Z.eqb_refl.
+  destruct (hookres =? 0); reflexivity.
+Qed.
+
+Lemma setdesktop_clients_at_other hookres : forall l m n c,
+  sds_keeps_own_answer = true -> n <> m -> nth_error l n = Some c -> cReqChange c = c16_reason_client ->
+  nth_error (setdesktop_clients_at m hookres l) n = Some c.
+Proof.
+  induction l as [|a t IH]; intros m n c Hf Hnm Hn Hc; [destruct n; discriminate|].
+  destruct m as [|m']; destruct n as [|n']; cbn [setdesktop_clients_at nth_error] in *; try lia.
+  - rewrite nth_error_map, Hn. cbn. f_equal. apply setdesktop_own_kept; assumption.
+  - inversion Hn; subst. f_equal. apply setdesktop_own_kept; assumption.
+  - apply IH; auto.
+Qed.
+
+Lemma own_request_survives st n m w h ns hookres st' out c :
+  sds_keeps_own_answer = true -> n <> m ->
+  nth_error (sClients st) n = Some c -> cReqChange c = c16_reason_client ->
+  step st (OpSetDesktopSize m w h ns hookres) = Some (st', out) ->
+  nth_error (sClients st') n = Some c.
+Proof.
+  intros Hf Hnm Hn Hc. unfold step. cbn [op_target]. destruct (live_at st m); [|discriminate]. cbn [step0].
+  destruct (m <? length (sClients st))%nat; [|discriminate].
+  destruct (ns =? 0); intros Hs; inversion Hs; subst; [exact Hn|].
+  replace (sClients (set_clients st (setdesktop_clients_at m hookres (sClients st))))
+    with (setdesktop_clients_at m hookres (sClients st)) by (destruct st; reflexivity).
+  apply setdesktop_clients_at_other; assumption.
 Qed.
 
 (* the refusal reaches an ExtendedDesktopSize client as one pseudo-rectangle carrying it *)
@@ -514,4 +568,36 @@ Proof.
     - destruct (f a) as [[a' m']|]; [|discriminate]. inversion Hu; reflexivity.
     - destruct (upd_nth n t f) as [[t' m']|] eqn:E; [|discriminate]. inversion Hu; subst. cbn. f_equal. eapply IH; eauto. }
   destruct st; cbn. repeat split. eapply Hlen; [|exact Eu]. intros a. eexists. reflexivity.
+Qed.
+
+(* ------------------------------------------------------------------ F31: a refusal overwritten *)
+(* History level: "a client's own resize request is answered with success or the refusal code".
+   The per-step facts ([setdesktop_refusal_sent]: the very next update carries the refusal) do not give it:
+   between the refusal and that update another client's request can be accepted, and the loop that
+   tells the other clients "somebody else asked" (rfbserver.c:3134-3143) also overwrites the reason of
+   the client whose own answer is still pending.  Witness: two ExtendedDesktopSize clients, client 0 is
+   refused with status 3, client 1 is accepted, client 0's next update says
+   reason 2 (other client) / status 3: its own request is never answered. *)
+Definition f31_ops : list op :=
+  [OpSetCursor None; OpAddClient; OpAddClient;
+   OpSetEncodings 0 false true false true; OpSetEncodings 1 false true false true;
+   OpRequest 0 false 0 0 12 8; OpTick 0; OpRequest 1 false 0 0 12 8; OpTick 1; OpTick 0; OpTick 1;
+   OpSetDesktopSize 0 20 10 1 3; OpSetDesktopSize 1 20 10 1 0; OpRequest 0 true 0 0 12 8].
+
+Lemma refusal_answered_refuted :
+  exists st st', run (init_state 12 8 4) f31_ops = Some st /\ Inv st /\
+    step st (OpTick 0) = Some (st', [(0%nat, (1, [WExt c16_reason_other 3 12 8]))]) /\
+    c16_reason_other <> c16_reason_client.
+Proof.
+  destruct (run (init_state 12 8 4) f31_ops) as [st|] eqn:E; [|vm_compute in E; discriminate].
+  assert (HI : Inv st).
+  { apply (run_inv f31_ops (init_state 12 8 4) st); [apply init_inv; lia| |exact E].
+    unfold f31_ops.
+    repeat (split; [first [exact Logic.I | solve [cbn; repeat split; lia]] |
+                    let st' := fresh "st" in let out := fresh "out" in let Hs := fresh "Hs" in
+                    intros st' out Hs; vm_compute in Hs; inversion Hs; subst; clear Hs]).
+    exact Logic.I. }
+  vm_compute in E. inversion E; subst. clear E.
+  eexists. eexists. split; [reflexivity|]. split; [exact HI|]. split; [vm_compute; reflexivity|].
+  vm_compute. discriminate.
 Qed.
